@@ -75,7 +75,7 @@ def case_single(sp, tier):
     sa = S3[choice(3, "shape_a")]
     spec = dict(leaves=[("a", sa, True), ("b", (2,), True)], ops=[dict(name="f", inputs=["a", "b"], outs=[("y", sy)], deps={(0, 0), (0, 1)})])
     ranks = {"a": 0, "b": 1, "y": 10}
-    return _compare(sp, spec, ranks, ["y"], ["a", "b"], ai, chunk_by_choice=True)
+    return _compare(sp, spec, ranks, ["y"], ["a", "b"], ai, chunk_by_choice=True, f64=choice(2, "float64_program") == 1)
 
 
 def case_graph(sp, tier):
@@ -98,14 +98,17 @@ def case_graph(sp, tier):
     return _compare(sp, spec, ranks, ["y1", "y2"], ins, ai, chunk_by_choice=False)
 
 
-def _compare(sp, spec, ranks, outs, ins, ai, chunk_by_choice):
-    prog = Prog(spec, ranks=ranks)
+def _compare(sp, spec, ranks, outs, ins, ai, chunk_by_choice, f64=False):
+    dt = torch.float64 if f64 else None
+    if f64:
+        torch.KERNELS["lossy_casts"] = "both"  # any change of floating dtype of a non-dyadic value is an arbitrary perturbation
+    prog = Prog(spec, ranks=ranks, dtype=dt)
     if not all(prog[n].requires_grad for n in outs):
         raise symx.PathAbort("an output does not require grad")
     rows = sum(prog[n].numel() for n in outs)
     if ai == 0:
         w = [named(f"w{r}") for r in range(rows)]
-        A, nm = Constant(T(w)), "constant"
+        A, nm = Constant(T(w, dt)), "constant"
     elif ai == 1:
         w, A, nm = [R(1)] * rows, Sum(), "sum"
     else:
@@ -114,12 +117,12 @@ def _compare(sp, spec, ranks, outs, ins, ai, chunk_by_choice):
     k = ks[choice(len(ks), "chunk")]
     old_b = set_grad(prog["b"], "b")
     backward([prog[n] for n in outs], A, inputs=[prog[n] for n in ins], parallel_chunk_size=k)
-    twin = Prog(spec, ranks={kk: v + 100 for kk, v in ranks.items()})
+    twin = Prog(spec, ranks={kk: v + 100 for kk, v in ranks.items()}, dtype=dt)
     set_grad(twin["b"], "b")
     torch.autograd.backward([twin[n] for n in outs], grad_tensors=_split(w, twin, outs), inputs=[twin[n] for n in ins])
     def cex(model):
         return dict(kind="autojac_vs_autograd", spec=spec_json(spec), outputs=outs, inputs=ins, jac=jac_values(model, prog), agg=nm,
-                    w=cex_values(model, w=w)["w"], chunk=k, old={"b": cex_values(model, g=old_b)["g"]})
+                    w=cex_values(model, w=w)["w"], chunk=k, old={"b": cex_values(model, g=old_b)["g"]}, dtype="float64" if f64 else "float32")
     obs = []
     for n in prog.leaf_names():
         g1, g2 = grad_list(prog[n]), grad_list(twin[n])
